@@ -357,6 +357,7 @@ def main():
             obs.append(common.Ob(f"log{bits} merge (real-idealised): {grp}", realmode.ob_merge_ideal, (bits, tmo, grp), hard_s=tmo / 1000 * 3 + 120, bounds={"bits": bits}))
     obs.append(common.Ob("_func(b) = 0 <=> the ceiling decodes to max_count (real-idealised)", ob_func_char, (tmo,), hard_s=tmo / 1000 + 120, bounds={"uint_max": "1..65535 symbolic", "max_count": "< 2^63 symbolic"}))
     obs.append(common.Ob("_find_base: 200 Newton steps on exactly the given parameters; ValueError iff base < 1.000000001", ob_find_base_plumbing, (tmo,), hard_s=tmo / 1000 * 6 + 300, bounds={"max_count": "all uint64", "loop": "200 iterations unrolled"}))
+    obs.append(common.Ob("witness: a linear estimate reaches the ceiling from below in the add harness", c05.ob_linear_witness, (2, 2, "ceiling"), kind="witness", hard_s=300))
     results = common.run_obligations(obs, progress=os.environ.get("VERIF_VERBOSE") == "1")
     funcs = set()
     for r in results:
